@@ -48,7 +48,7 @@ def scope_values(r):
 
 
 def gen_cases(tier, seed):
-    n = 1500 if tier == "quick" else 40000
+    n = 1500 if tier == "quick" else 25000
     out = []
     for i in range(n):
         s = env.seed_for(seed, ID, tier, i)
